@@ -39,20 +39,30 @@ def _same_kv(model, real):
 def _num(k, q):
     return int(q) if (k == 'min_n_cycles' and q.denominator == 1) else float(q)
 
-def _model_trace(c, obs, loaded, sigs, fs, fr):
+def _model_trace(c, obs, loaded, sigs, fs, fr, init_th=None):
     """the Lean object machine (BycycleModel/ObjMachine.lean, symbolic instance ObjTrace.lean) run on the same history: outcome, stored
     dictionaries, stored signal and table after every operation; the table is the model's provenance term evaluated with the functional API."""
     from bycycle.features import compute_features
     from bycycle.burst import recompute_edges as rc_edges
     if not obs: return None
     memo = {}
+    # the functional reference receives its threshold values in the NUMERIC TYPE the object holds them in (np.float32 thresholds make numpy
+    # compare in single precision): the type of every key is read off the object's own dictionary as it was before the operation
+    held = {}
+    for snap_th in [init_th or {}] + [o[2][0] for o in obs]:
+        for k, v in (snap_th or {}).items():
+            held.setdefault((k, Fraction(float(v)) if isinstance(v, (float, np.floating)) else Fraction(int(v))), type(v))
+    def typed(k, q):
+        t = held.get((k, Fraction(q)))
+        v = _num(k, Fraction(q))
+        return t(v) if t in (np.float32, np.float64, np.int64, np.int32) else v
     def cf(st, x):
         key = ('cf', repr(st), x)
         if key not in memo:
             peak, cyc, bk, th, fek, rs = st
             try:
                 memo[key] = implutil.quiet(compute_features, sigs[int(x)], fs, fr, center_extrema='peak' if peak == 'T' else 'trough', burst_method='cycles' if cyc == 'T' else 'amp',
-                                           burst_kwargs={k: _num(k, Fraction(q)) for k, q in bk}, threshold_kwargs={k: _num(k, Fraction(q)) for k, q in th},
+                                           burst_kwargs={k: _num(k, Fraction(q)) for k, q in bk}, threshold_kwargs={k: typed(k, q) for k, q in th},
                                            find_extrema_kwargs=copy.deepcopy(FEKS[int(fek)]), return_samples=(rs == 'T'))
             except Exception as e:
                 memo[key] = e
@@ -66,7 +76,7 @@ def _model_trace(c, obs, loaded, sigs, fs, fr):
         else:
             base = ev(t[1])
             try:
-                r = implutil.quiet(rc_edges, base.copy(deep=True), {k: _num(k, Fraction(q)) for k, q in t[2]})
+                r = implutil.quiet(rc_edges, base.copy(deep=True), {k: typed(k, q) for k, q in t[2]})
             except Exception as e:
                 r = e
         memo[key] = r
@@ -170,6 +180,31 @@ def _group(c):
             if m.df_features is not t and not m.df_features.equals(t): return 'fit %d: models%s.df_features is not df_features%s' % (k, list(idx), list(idx))
             if bg[idx[0]] is not bg.models[idx[0]]: return 'fit %d: indexing the group does not return its models' % k
             if (m.fs, tuple(m.f_range), m.center_extrema) != (250, (7.0, 13.0), c['center']): return 'fit %d: models%s does not carry the settings of the group' % (k, list(idx))
+    # ... and still do after an edge recomputation of the whole group, in which every model uses ITS OWN thresholds: the first model gets looser
+    # thresholds of its own and is refitted before
+    from bycycle.burst import recompute_edges as rc_edges
+    import copy as _copy
+    shp = c['fits'][-1]['shape']
+    if f['axis'] in ('0', 'a01') or len(shp) == 1 and f['axis'] == '0':
+        get = (lambda idx: bg.models[idx[0]]) if len(shp) == 1 else (lambda idx: bg.models[idx[0]][idx[1]])
+        first = tuple([0] * len(shp))
+        m0 = get(first)
+        m0.thresholds = {'amp_fraction_threshold': 0.0, 'amp_consistency_threshold': 0.2, 'period_consistency_threshold': 0.2, 'monotonicity_threshold': 0.3, 'min_n_cycles': 2}
+        try:
+            implutil.quiet(m0.fit, m0.sig, 250, (7.0, 13.0))
+            before = {idx: (get(idx).df_features.copy(deep=True), _copy.deepcopy(get(idx).thresholds)) for idx in np.ndindex(*shp)}
+            implutil.quiet(bg.recompute_edges)
+        except Exception as e:
+            return 'group recompute_edges raised %s: %s' % (type(e).__name__, str(e)[:80])
+        for idx in np.ndindex(*shp):
+            t0, th0 = before[idx]
+            try:
+                exp = implutil.quiet(rc_edges, t0, th0)
+            except Exception:
+                continue
+            if not get(idx).df_features.equals(exp): return 'after the group recompute_edges models%s is not the edge recomputation of its table with ITS thresholds' % list(idx)
+            t = bg.df_features[idx[0]] if len(shp) == 1 else bg.df_features[idx[0]][idx[1]]
+            if idx != first and not get(idx).df_features.equals(t): return 'after the group recompute_edges models%s.df_features is no longer df_features%s' % (list(idx), list(idx))
     return None
 
 def evaluate(ctx, cases):
@@ -191,7 +226,8 @@ def evaluate(ctx, cases):
             ok = False
         th_in = copy.deepcopy(c['th'])
         if th_in is not None and c['seed'] % 3 == 0:       # threshold values as numpy scalars (a float32 parameter grid, numpy integers)
-            th_in = {k: (np.int64(v) if k == 'min_n_cycles' else np.float32(v)) for k, v in th_in.items()}
+            # (values on the 1/8 grid and reductions of 1/8, 1/4 below: exact in single precision, so that no comparison depends on rounding)
+            th_in = {k: (np.int64(v) if k == 'min_n_cycles' else np.float32(round(float(v) * 8) / 8)) for k, v in th_in.items()}
         c_eff = dict(c, th=(None if th_in is None else {k: (int(v) if k == 'min_n_cycles' else float(v)) for k, v in th_in.items()}))     # (exact values held)
         try:
             bm = implutil.quiet(Bycycle, center_extrema=c['center'], burst_method=c['method'], thresholds=th_in,
@@ -203,6 +239,7 @@ def evaluate(ctx, cases):
         if c['th'] is not None:
             exp_req = ('objs.expand ' + _kv(c_eff['th']), dict(bm.thresholds))
         nfit = 0; edited_before_fit = False; last_sig = None
+        init_th = copy.deepcopy(bm.thresholds)
         obs = []; loaded = {}                 # per executed operation: (model op, outcome, snapshot of the object)
         def snap():
             j = next((k for k in range(3) if bm.sig is sigs[k]), None) if bm.sig is not None else None
@@ -212,8 +249,10 @@ def evaluate(ctx, cases):
                 for col in list(bm.df_features.columns)[:4] + list(bm.df_features.columns)[-2:]:
                     if not np.array_equal(np.asarray(getattr(bm, col)), bm.df_features[col].values, equal_nan=True):
                         fail('after %s attribute %s is not the column of the current table' % (where, col)); return
+        f32 = th_in is not None and any(isinstance(v, np.float32) for v in th_in.values())
         for opi, op in enumerate(c['ops']):
             if not ok: break
+            if f32 and op[0] == 'edges' and op[1] is not None: op = ['edges', {0.1: 0.125, 0.3: 0.25}.get(op[1], op[1])]
             mop, outcome = None, 'done'
             if op[0] in ('fit', 'edges', 'load'):
                 attr_check('the operations before ' + repr(op))      # read (and possibly cache) before the table is replaced
@@ -303,7 +342,7 @@ def evaluate(ctx, cases):
             if ok and op[0] in ('fit', 'edges', 'load'):
                 attr_check(repr(op))
         if ok:
-            md = _model_trace(c_eff, obs, loaded, sigs, fs, fr)
+            md = _model_trace(c_eff, obs, loaded, sigs, fs, fr, init_th=init_th)
             if md:
                 corr = False; info['model'] = md
         results.append((ok, corr, info, exp_req))
